@@ -21,10 +21,11 @@ META = {
     'evaluation_counters': ['judged_fast_generate_from', 'judged_fcbo_dual', 'judged_iterconcepts',
                             'judged_get_concepts', 'judged_lattice_crosscheck'],
     'required_counters': ['judged_fast_generate_from', 'judged_fcbo_dual', 'judged_iterconcepts',
-                          'judged_get_concepts', 'judged_lattice_crosscheck', 'judged_items_of_get_concepts'],
+                          'judged_get_concepts', 'judged_lattice_crosscheck', 'judged_items_of_get_concepts',
+                          'interleaved_generator_runs'],
     'shards': {'quick': 16, 'thorough': 16},
     'exhaustive': {'quick': 'all 682 boolean tables <= 3x3',
-                   'thorough': 'all boolean tables <= 3x3 plus all 3x4 and 4x3 tables'},
+                   'thorough': 'all boolean tables <= 3x3 plus all 3x4, 4x3 and 4x4 tables'},
     'assumptions': ['raw pairs are decoded through their public members()'],
 }
 
@@ -150,6 +151,19 @@ def run_case(concepts, case, spec):
             for _ in range(rng.randint(0, 3)):
                 next(g, None)
             del g
+    # two runs of the same generator over the same context alive at once
+    if rng.random() < .3:
+        for fn in (alg.fast_generate_from, alg.fcbo_dual, alg.iterconcepts):
+            g1 = call(fn, ctx)
+            if g1 is RAISED:
+                continue
+            for _ in range(rng.randint(0, 3)):
+                next(g1, None)
+            g2 = call(fn, ctx)
+            if g2 is not RAISED:
+                call(list, g2)
+            call(list, g1)
+            COL.count('interleaved_generator_runs')
     # cross-check with context.lattice (driver side, C03 judges the lattice itself)
     lat = common.get_lattice(ctx)
     if lat is not RAISED:
